@@ -16,6 +16,8 @@ under any that does not:
  (H) the default of every `secure` parameter (inspect.signature)
  (J) which handle (the view itself / `__call_permissive__`) render_view_to_response (secure default/True/False) and
      owrapped_view's wrapper lookup call
+ (K) LegacySecurityPolicy.permits on one request over (context, permission) pairs repeating a permission name on two
+     contexts: the authorization policy is asked every time about exactly (context, effective principals, permission)
  (I) the `viewdefaults` merge of a class's (inherited) `__view_defaults__` with the explicit arguments, observed
      through add_view on a base/own/explicit/default-permission cube (96 runs)
 STRUCTURAL facts — python `ast` (cannot be observed by running: they are about every place in the tree):
@@ -328,6 +330,13 @@ def generate(root):
           'wrapped inner view) -/',
           'def entryProbe : List (String × List Nat) := [' +
           ', '.join('(%s, %s)' % (_lstr(a), _lnats(b)) for a, b in (pr.get('entrypoints') or [])) + ']', '']
+    # (K) the legacy shim policy
+    L += ['/-- LegacySecurityPolicy.permits, four calls on one request: (context, permission, what the AUTHORIZATION policy was',
+          'asked during the call,',
+          'each coded 100*context + 10*permission + (1 if the principals were the effective principals), truthiness returned) -/',
+          'def legacyShimProbe : List (Nat × Nat × List Nat × Bool) := [' +
+          ', '.join('(%d, %d, %s, %s)' % (r['ctx'], r['perm'], _lnats([100 * a + 10 * b + (1 if c else 0) for a, b, c in r['asked']]), _lbool(r['result']))
+                    for r in (pr.get('legacy_shim') or [])) + ']', '']
     # (H)
     L += ['def secureDefaults : List (String × String) := [' + ', '.join('(%s, %s)' % (_lstr(a), _lstr(b)) for a, b in (pr.get('secure_defaults') or [])) + ']', '']
     # (S)
